@@ -81,6 +81,32 @@ int main()
       std::stringstream ss(line);
       std::string kind; ss >> kind;
       if (kind == "long") { std::string k2; long n = 0; ss >> k2 >> n; long_list(w, k2, n); continue; }
+      if (kind == "arrays") {
+         // declarations and redeclarations of one name with array types of unknown and known bound, pointer and function types: each
+         // declaration, the id-expression naming it and the scope's type at its position report the type it was declared with
+         auto* cls = w.lex.make_namespace(*w.greg);
+         auto& scope = cls->body;
+         auto& n8 = *w.lex.make_literal(w.lex.int_type(), u8"8"); auto& n256 = *w.lex.make_literal(w.lex.int_type(), u8"256");
+         std::vector<const ipr::Type*> ts = {
+            &w.lex.get_array(w.lex.uchar_type(), *w.lex.make_phantom()), &w.lex.get_array(w.lex.uchar_type(), n256), &w.lex.get_array(w.lex.int_type(), n8),
+            &w.lex.get_array(w.lex.uchar_type(), n8), &w.lex.get_array(w.lex.uchar_type(), *w.lex.make_phantom()), &w.lex.get_pointer(w.lex.uchar_type()),
+            &w.lex.get_array(w.lex.get_array(w.lex.int_type(), n8), *w.lex.make_phantom()), &w.lex.get_array(w.lex.get_array(w.lex.int_type(), n8), n256) };
+         std::vector<const ipr::Decl*> made;
+         long bad = 0; std::string first;
+         for (std::size_t round = 0; round < 2; ++round)
+            for (std::size_t k = 0; k < ts.size(); ++k) {
+               auto* v = scope.declare_var(*w.ids[round], *ts[k]);            // the same name every time within a round
+               made.push_back(v);
+            }
+         auto prod = util::view<ipr::Product>(scope.scope.type());
+         for (std::size_t i = 0; i < made.size(); ++i) {
+            const ipr::Type* want = ts[i % ts.size()];
+            bool ok = &made[i]->type() == want and &w.lex.make_id_expr(*made[i])->type() == want and prod != nullptr and &(*prod)[i] == want;
+            if (not ok) { ++bad; if (first.empty()) first = std::to_string(i); }
+         }
+         std::printf("ARRAYS declarations=%zu bad=%ld first=%s\n", made.size(), bad, first.empty() ? "-" : first.c_str());
+         continue;
+      }
       std::vector<long> ts; long v;
       while (ss >> v) ts.push_back(((v % 8) + 8) % 8);
       std::string out;
